@@ -9,7 +9,7 @@ import pandas as pd
 from .. import proto
 from ..core import Check, Problem, register
 from . import c06
-from .c06 import (MOMENTS, LOSS_RANGES, costs_ok, demote_harness, fl, gen_bounds, gen_dataset, history_tag, index_keys, make_inputs,
+from .c06 import (MOMENTS, LOSS_RANGES, costs_ok, demote_harness, fl, gen_bounds, gen_dataset, gl, history_tag, index_keys, make_inputs,
                   make_moment, make_predictor, previous_life, spec_config, spec_err, spec_loss, spec_order, spec_parity,
                   strata_stats, with_history)
 
@@ -231,9 +231,14 @@ class CHECK(Check):
                 if loss == "zeroone":
                     lo, hi = "0", "1"
                 ng = rng.choice([1, 2, 3])
+                # group labels: strings, or integers whose STRING order differs from the numeric order (see c06.gen_dataset)
+                gint = rng.random() < 0.4
+                gnames = ["0", "1", "2"][:ng] if gint else ["a", "b", "c"][:ng]
                 yield {"kind": rng.choice(["bgl", "bgl", "bgl-eg", "bgl-grid"]), "loss": loss, "lo": lo, "hi": hi,
+                       "gtype": "int" if gint else "str",
+                       "gmap": rng.choice([[-3, 2, 9, 10], [2, 9, 10, 11], [5, 12, 100, 1000], [-2, -1, 3, 20]])[:ng] if gint else None,
                        "y": [str(F(rng.randint(-8, 16), 8)) for _ in range(n)],
-                       "g": [rng.choice(["a", "b", "c"][:ng]) for _ in range(n)],
+                       "g": [rng.choice(gnames) for _ in range(n)],
                        "h": [str(F(rng.randint(-8, 16), 8)) for _ in range(n)],
                        "lam_kind": rng.choice(["unit", "random"]), "lam_pos": rng.randrange(8),
                        "lam_pool": [str(F(rng.choice([0, 1, 1, 2, 3, 5]), rng.choice([1, 2, 4]))) for _ in range(4)],
@@ -437,7 +442,7 @@ class CHECK(Check):
         kind = case["kind"]
         probe = red.BoundedGroupLoss(mk(), upper_bound=0.5)
         probe.load_data(X, y, sensitive_features=sf)
-        idx = [str(k) for k in probe.index]
+        idx = [gl(k) for k in probe.index]
         lam = lam_from_pool(case["lam_pool"], len(idx), case["lam_kind"], case["lam_pos"])
         lam_s = pd.Series([float(v) for v in lam], index=probe.index)
         out = {"index": idx}
